@@ -8,7 +8,7 @@ from ..harness import World, execute, place_summary, probe, violation
 
 LEVEL = "exploration"
 PLAN = {
-    "quick": {"mem": 1400, "redis": 250, "rabbit": 250},
+    "quick": {"mem": 2200, "redis": 450, "rabbit": 450},
     "thorough": {"mem": 60000, "redis": 9000, "rabbit": 9000},
 }
 BUDGET = {"quick": 50, "thorough": 840}
